@@ -154,6 +154,15 @@ Theorem C10_truncate_safe : forall (crc : bytes -> N) st active T dfail st' r,
 Proof. exact truncate_safe. Qed.
 Print Assumptions C10_truncate_safe.
 
+(* Exact form: the sub-list of entries stamped later than T is the same before and after
+   (same entries, same order, same multiplicity). *)
+Theorem C10_truncate_exact : forall (crc : bytes -> N) st active T dfail st' r,
+  NoDup (map fst st) -> truncate_before crc st active T dfail = (st', r) ->
+  exists l l', recover_all crc st = Ok l /\ recover_all crc st' = Ok l' /\
+    filter (fun e => T <? e_ts e) l' = filter (fun e => T <? e_ts e) l.
+Proof. exact truncate_exact. Qed.
+Print Assumptions C10_truncate_exact.
+
 (* The hypotheses are satisfiable: concrete well-formed entries under the real CRC-32. *)
 Example C10_nonvacuous :
   Forall (wf_entry crc32) [mk_entry crc32 9 [1; 2; 3]; mk_entry crc32 4 []; mk_entry crc32 7 [255]].
